@@ -567,6 +567,33 @@ def apply_history(w, mll, cfg):
             new_y = -1.5 + 3.0 * torch.rand(w.train_y.shape, generator=gen, dtype=torch.float64)
             model.set_train_data(targets=new_y, strict=False)
             w.train_y = new_y
+        elif op == "load_priors":
+            # prior hyper-parameters are buffers: a checkpoint loaded through the MODEL may carry other values than the
+            # constructor's; the objective must then use the loaded ones (the spec's (a, b) are updated accordingly)
+            sd = model.state_dict()
+            newvals = {}
+            out_priors = []
+            for (site, kind, a, b, getter, own), obj in zip(w.priors, w.prior_objs):
+                if kind not in ("normal", "gamma", "lognormal"):
+                    out_priors.append((site, kind, a, b, getter, own))
+                    continue
+                if id(obj) not in newvals:
+                    newvals[id(obj)] = (round(0.3 + 1.2 * float(torch.rand(1, generator=gen)), 3),
+                                        round(0.4 + 1.6 * float(torch.rand(1, generator=gen)), 3))
+                a2, b2 = newvals[id(obj)]
+                modname, attr = own.rsplit(".", 1)
+                pre = (modname + "." if modname else "") + f"{attr}_verif_prior."
+                bufs = {"normal": (("loc", a2), ("scale", b2)), "gamma": (("concentration", 1.0 + a2), ("rate", b2)),
+                        "lognormal": (("_transformed_loc", a2 - 0.8), ("_transformed_scale", b2))}[kind]
+                ok = all(pre + nm in sd for nm, _v in bufs)
+                if ok:
+                    for nm, v in bufs:
+                        sd[pre + nm] = torch.full_like(sd[pre + nm], v)
+                    out_priors.append((site, kind, a2, b2, getter, own))
+                else:
+                    out_priors.append((site, kind, a, b, getter, own))
+            model.load_state_dict(sd)
+            w.priors = out_priors
         elif op == "deepcopy":
             # copy history: the OBJECTIVE (likelihood + model) is deep-copied, the copy's hyperparameters are moved, and
             # from here on the copy is the object under test; the original must be left alone (checked at the end)
@@ -1013,6 +1040,62 @@ def exact_gradient_lines(case, w, mll, tag, cond, known_sites, op="grad"):
     case.finish2 = finish2
 
 
+def run_mll_other(cfg):
+    """Training-mode objective at inputs OTHER than the stored training inputs (same shape; the next mini-batch without
+    set_train_data) under settings.debug(False): `mll(model(x_other), y)` must be the dense definition with K, m evaluated
+    at x_other.  The reference K, m come from a fresh twin that HOLDS x_other as its training inputs."""
+    import torch
+    import gpytorch
+    from props import _c02models as Mz
+    case = Case(cfg, "mll_other")
+    w = Mz.build(cfg)
+    tag = f"{cfg['family']}:{cfg['lik']}:{cfg['batch']}"
+    with warnings.catch_warnings(), torch.no_grad():
+        warnings.simplefilter("ignore")
+        g2 = torch.Generator().manual_seed(cfg["seed"] ^ 0x51)
+        x_other = w.train_x + 0.2 + 0.5 * torch.rand(w.train_x.shape, generator=g2, dtype=torch.float64)
+        w2 = Mz.build(cfg)
+        w2.model.load_state_dict(w.model.state_dict())
+        w2.model.set_train_data(inputs=x_other.clone(), targets=w.train_y.clone(), strict=False)
+        w2.train_y = w.train_y
+        out2, A, m, y = dense_parts(w2)
+        cond = float(torch.linalg.cond(A).max())
+        if not cond < 1e6:
+            case.discard = "cond>1e6"
+            return case
+        mll = gpytorch.mlls.ExactMarginalLogLikelihood(w.lik, w.model)
+        x_before = [t.clone() for t in w.model.train_inputs]
+        try:
+            with gpytorch.settings.debug(False):
+                impl = mll(w.model(x_other), w.train_y)
+        except Exception as e:
+            case.fail(f"mll-raises:{tag}:other-inputs", f"mll(model(x_other), y) under debug(False) raised {type(e).__name__}: {str(e)[:200]}")
+            return case
+        if any(not torch.equal(a_, b_) for a_, b_ in zip(w.model.train_inputs, x_before)):
+            case.fail(f"mll-mutates-input:{tag}:other-inputs", "a training-mode call at other inputs changed the stored training inputs")
+        case.lines, Bx = mll_lines(w2, A, m, y, prior_terms(w2), [t.loss() for t in Mz.registered_added_loss_terms(w2.model)])
+        shift = finding_shift(w2)
+        known = bool(finding_sites(w2) or nb_sites(w2))
+
+    def finish(replies):
+        exact = exact_mll_values(replies, w.N)
+        v = impl.detach()
+        if tuple(v.shape) != tuple(Bx):
+            case.fail(f"mll-shape:{tag}:other-inputs", f"mll has shape {tuple(v.shape)}, batch shape is {tuple(Bx)}")
+            return
+        for bi, ex in zip(all_idx(Bx), exact):
+            if ex is None:
+                case.discard = "singular-in-Q"
+                continue
+            got = float(v[bi])
+            if _close(got, ex, 1e-9, cond=cond) or (known and _close(got, ex + float(shift[bi]), 1e-9, cond=cond)):
+                continue
+            case.fail(f"mll:{tag}:other-inputs", f"training mode, debug(False): mll(model(x_other), y){list(bi)} = {got!r}; dense "
+                                                 f"definition with K, m evaluated at x_other {ex!r} (|diff| {abs(got - ex):.3e})")
+    case.finish = finish
+    return case
+
+
 # ------------------------------------------------------------------ LOO
 
 def run_loo(cfg):
@@ -1118,7 +1201,10 @@ def run_sum(cfg):
             l, _ = mll_lines(w, A, m, y, prior_terms(w), [t.loss() for t in Mz.registered_added_loss_terms(w.model)])
             lines += l
         try:
-            impl = float(smll(model(*model.train_inputs), model.train_targets))
+            if cfg.get("params"):   # the documented per-model `params` (here: each member's training inputs)
+                impl = float(smll(model(*model.train_inputs), model.train_targets, *model.train_inputs))
+            else:
+                impl = float(smll(model(*model.train_inputs), model.train_targets))
         except Exception as e:
             case.fail("sum-raises", f"SumMarginalLogLikelihood raised {type(e).__name__}: {str(e)[:200]}")
             return case
@@ -1138,7 +1224,7 @@ def run_sum(cfg):
         def finish2(rep2):
             spec = float(Fraction(rep2[0]))
             if not _close(impl, spec, 1e-9, cond=max(conds)):
-                case.fail("sum-mll", f"SumMarginalLogLikelihood = {impl!r}; mean of the {len(vals)} members' exact MLLs "
+                case.fail("sum-mll" + (":params" if cfg.get("params") else ""), f"SumMarginalLogLikelihood = {impl!r}; mean of the {len(vals)} members' exact MLLs "
                                      f"{vals} = {spec!r}")
         case.finish2 = finish2
     case.finish = finish
@@ -1192,7 +1278,7 @@ def gen_cfgs(ctx):
     cfgs = []
     n_mll = 64 if quick else 1400
     fams = ["single"] * 5 + ["multitask"] * 2 + ["sgpr"]
-    HOPS = ["raw", "load_state_dict", "partial_state_dict", "setter", "targets", "deepcopy"]
+    HOPS = ["raw", "load_state_dict", "partial_state_dict", "setter", "targets", "deepcopy", "load_priors"]
 
     def decorate(c, p_hist=0.35):
         """op-then-use history, settings cell and call-time kwargs on top of a model configuration"""
@@ -1298,10 +1384,36 @@ def gen_cfgs(ctx):
             c.update(batch="none", b=0)
             members.append(c)
         cfgs.append(("sum", {"members": members, "seed": members[0]["seed"]}))
+    # training-mode calls at other inputs of the same shape under debug(False)
+    for _ in range(6 if quick else 60):
+        c = Mz.random_cfg(rng, family=rng.choice(["single", "single", "multitask"]), n_max=7)
+        cfgs.append(("mll_other", c))
+    # SumMLL called with the documented per-model `params`, members with fixed noise and different n
+    for _ in range(4 if quick else 40):
+        members = []
+        for _k in range(rng.randint(2, 3)):
+            c = Mz.random_cfg(rng, family="single", n_max=7)
+            c.update(batch="none", b=0, lik=rng.choice(["fixed", "fixed+learned", "fixed"]), n=2 + _k + rng.randint(0, 2))
+            members.append(c)
+        cfgs.append(("sum", {"members": members, "seed": members[0]["seed"], "params": True}))
+    # checkpoints that carry other prior hyper-parameters, loaded through the model
+    for _ in range(6 if quick else 48):
+        c = Mz.random_cfg(rng, family=rng.choice(["single", "sgpr", "multitask"]), n_max=7)
+        # every loadable prior kind is present, in particular a TransformedDistribution prior (lognormal), whose base
+        # distribution must follow the loaded buffers
+        have = {p_[1] for p_ in c["priors"]}
+        used = {p_[0] for p_ in c["priors"]}
+        for kind_, site_ in (("lognormal", "lengthscale"), ("normal", "noise"), ("gamma", "lengthscale")):
+            if kind_ not in have and site_ not in used:
+                c["priors"].append([site_, kind_, 0.8, 1.1])
+                used.add(site_)
+        c["history"] = ["load_priors"] + ([rng.choice(["raw", "setter"])] if rng.random() < 0.5 else [])
+        c["nocast"] = _ % 2 == 0      # priors never cast / moved after construction (built in the default dtype float64)
+        cfgs.append(("mll", c))
     return cfgs
 
 
-RUN = {"mll": run_mll, "loo": run_loo, "sum": run_sum}
+RUN = {"mll": run_mll, "loo": run_loo, "sum": run_sum, "mll_other": run_mll_other}
 
 
 def run_cases(ctx, cfgs, oracle):
